@@ -37,7 +37,7 @@ META = {
                   "Tolerance 1e-9*max(1,|R|) (x200 with expm / fractional powers); below a simplify node 1e-7*max(1,|R|) because simplify "
                   "snaps angles with allclose(atol=1e-8) by design.",
     "shards": {"quick": 4, "thorough": 16},
-    "budget_s": {"quick": 55, "thorough": 130},
+    "budget_s": {"quick": 150, "thorough": 300},
     "min_evals": {"quick": 1500, "thorough": 30000},
     "min_nontrivial": {"quick": 300, "thorough": 5000},
     "deciding": ["arith.matrix", "simplify.same", "map_wires.relabel"],
@@ -206,6 +206,144 @@ def _model_sum_hash_collision(opzoo, tree, W, M, tol):
         return False
     R2 = opzoo.expr_matrix(t2, W)
     return R2.shape == M.shape and bool(np.max(np.abs(M - R2)) < tol)
+
+
+def _subnodes(t, under=False):
+    """(node, below-a-simplify?) for every node of a tree."""
+    yield t, under
+    for a in (t.get("args") or ([t["arg"]] if "arg" in t else [])):
+        yield from _subnodes(a, under or t["op"] == "simplify")
+
+
+def _model_fracpow_branch(opzoo, tree, W, M, tol, max_combos=4000):
+    """True when M equals the reference in which every fractional power below a simplify node is replaced by ANOTHER branch
+    of the same power: eigenvalue e^{i phi} of the base -> e^{i z (phi + 2 pi k)} with one integer k per distinct eigenvalue
+    (the principal power is k = 0 everywhere).  Only for bases on <= 3 wires; at most ``max_combos`` candidates."""
+    import copy
+    t2 = copy.deepcopy(tree)
+    nodes = [n for n, under in _subnodes(t2) if under and n["op"] == "pow" and float(n["z"]) != int(n["z"])]
+    if not nodes or len(nodes) > 2:
+        return False
+    specs = []
+    for n in nodes:
+        ws = opzoo.tree_wires(n["arg"])
+        if len(ws) > 3:
+            return False
+        B = opzoo.expr_matrix(n["arg"], ws)
+        from scipy.linalg import schur
+        T, Z = schur(B, output="complex")
+        d = np.diag(T)
+        if np.max(np.abs(T - np.diag(d))) > 1e-8:
+            return False  # not normal
+        groups = []  # distinct eigenvalues
+        for i, ev in enumerate(d):
+            for g in groups:
+                if abs(ev - d[g[0]]) < 1e-7:
+                    g.append(i)
+                    break
+            else:
+                groups.append([i])
+        specs.append((n, ws, Z, d, groups, float(n["z"])))
+    ks = (0, 1, -1, 2, -2)
+    total = 1
+    for sp in specs:
+        total *= len(ks) ** len(sp[4])
+    if total > max_combos:
+        return False
+    originals = [dict(sp[0]) for sp in specs]
+    try:
+        for combo in itertools.product(*[itertools.product(ks, repeat=len(sp[4])) for sp in specs]):
+            if all(k == 0 for c in combo for k in c):
+                continue
+            for sp, c in zip(specs, combo):
+                n, ws, Z, d, groups, z = sp
+                ph = np.angle(d).astype(float)
+                for g, k in zip(groups, c):
+                    ph[g] = ph[g] + 2 * np.pi * k
+                P = Z @ np.diag(np.abs(d) ** z * np.exp(1j * z * ph)) @ Z.conj().T
+                for key in list(n.keys()):
+                    del n[key]
+                n.update({"op": "leaf", "name": "QubitUnitary", "matrix": opzoo._menc(P), "wires": list(ws)})
+            R2 = opzoo.expr_matrix(t2, W)
+            if R2.shape == M.shape and np.max(np.abs(M - R2)) < tol:
+                return True
+        return False
+    finally:
+        for sp, o in zip(specs, originals):
+            n = sp[0]
+            for key in list(n.keys()):
+                del n[key]
+            n.update(o)
+
+
+def _model_u2_sign(opzoo, tree, W, M, tol):
+    """True when M equals the reference with the sign of a U2(pi/2, 3pi/2) leaf (mod 2pi) below a simplify node flipped
+    (U2.simplify maps that case to RX(3pi/2) = -U2)."""
+    import copy
+    t2 = copy.deepcopy(tree)
+    hit = False
+    for n, under in list(_subnodes(t2)):
+        if under and n["op"] == "leaf" and n["name"] == "U2":
+            phi, delta = [x % (2 * np.pi) for x in n["params"]]
+            if abs(phi - np.pi / 2) < 2e-5 and abs(delta - 3 * np.pi / 2) < 6e-5:
+                leaf = dict(n)
+                for key in list(n.keys()):
+                    del n[key]
+                n.update({"op": "neg", "arg": leaf})
+                hit = True
+    if not hit:
+        return False
+    R2 = opzoo.expr_matrix(t2, W)
+    return R2.shape == M.shape and bool(np.max(np.abs(M - R2)) < tol)
+
+
+def _model_rot_hadamard(opzoo, tree, W, M, tol):
+    """True when M equals the reference in which a Rot / CRot leaf with angles (pi, pi/2, 0) mod 4pi below a simplify node is
+    replaced by Hadamard / CH (Rot.simplify returns Hadamard for it although Rot(pi, pi/2, 0) = -i H)."""
+    import copy
+    t2 = copy.deepcopy(tree)
+    hit = False
+    for n, under in list(_subnodes(t2)):
+        if under and n["op"] == "leaf" and n["name"] in ("Rot", "CRot"):
+            p0, p1, p2 = [x % (4 * np.pi) for x in n["params"]]
+            if abs(p0 - np.pi) < 4e-5 and abs(p1 - np.pi / 2) < 2e-5 and (p2 < 1e-7 or 4 * np.pi - p2 < 1e-7):
+                n["name"] = "Hadamard" if n["name"] == "Rot" else "CH"
+                n["params"] = []
+                hit = True
+    if not hit:
+        return False
+    R2 = opzoo.expr_matrix(t2, W)
+    return R2.shape == M.shape and bool(np.max(np.abs(M - R2)) < tol)
+
+
+def _counterfactual_hash(qp, opzoo, tree, W, R, tol):
+    """Causal test for the hash-grouping mechanism: rebuild the expression with operator hashing that does NOT reduce angles
+    modulo 2pi (the two canonicalisation helpers are wrapped for the duration of the rebuild); True when the real
+    code then agrees with the reference."""
+    import pennylane.core.operator.base as B
+    import pennylane.core.operator.operator2 as O2
+    has_collision = False
+    for n, under in _subnodes(tree):
+        if under and n["op"] in ("sum", "add", "prod", "matmul", "sub"):
+            has_collision = True
+    if not has_collision:
+        return False
+    orig_pd, orig_cd = B._process_data, O2._canonicalize_dynamic
+
+    class _Proxy:  # same data, a name that is not in the modulo list
+        def __init__(self, op):
+            self.name, self.data = "pv-no-modulo", op.data
+
+    B._process_data = lambda op: orig_pd(_Proxy(op))
+    O2._canonicalize_dynamic = lambda d, op_name=None: orig_cd(d, None)
+    try:
+        op2 = opzoo.build(qp, tree)
+        M2 = np.asarray(qp.matrix(op2, wire_order=W))
+    except Exception:  # noqa: BLE001
+        return False
+    finally:
+        B._process_data, O2._canonicalize_dynamic = orig_pd, orig_cd
+    return M2.shape == R.shape and bool(np.max(np.abs(M2 - R)) < tol)
 
 
 def _model_prod_group_order(qp, sv, op, child_ref, W, M, tol):
@@ -440,6 +578,32 @@ def _nonlist_pow_base(trace):
     return None
 
 
+def _walk_ops(o, depth=0):
+    yield o
+    if depth > 8:
+        return
+    for attr in ("base", "operands"):
+        v = getattr(o, attr, None)
+        if v is None:
+            continue
+        for e in (v if isinstance(v, (list, tuple)) else [v]):
+            if hasattr(e, "wires"):
+                yield from _walk_ops(e, depth + 1)
+
+
+def _nonlist_pow_class(trace, clsname):
+    for _, o in reversed(trace or []):
+        for x in _walk_ops(o):
+            if type(x).__name__ == clsname and hasattr(x, "pow"):
+                try:
+                    r = x.pow(2)
+                except Exception:  # noqa: BLE001
+                    continue
+                if not isinstance(r, (list, tuple)):
+                    return clsname
+    return None
+
+
 def _on_raise(ctx, kind, tree, exc, where, trace=None):
     name = type(exc).__name__
     if name in _DOC_REJECT:
@@ -447,17 +611,29 @@ def _on_raise(ctx, kind, tree, exc, where, trace=None):
         ctx.note_add("rejection_examples", f"{where}:{kind}:{name}: {_summary(tree)[:200]}", cap=12)
         return
     import os
+    import re
     import traceback
     site = "?"
     for fr in reversed(traceback.extract_tb(exc.__traceback__)):
-        if "/pennylane/" in fr.filename:
-            site = f"{os.path.basename(fr.filename)}:{fr.name}"
+        base = os.path.basename(fr.filename)
+        if "/pennylane/" in fr.filename and base not in ("wires.py", "meta.py", "capture_meta.py") and fr.name != "__getattr__":
+            site = f"{base}:{fr.name}"
             break
     mech = f"raise:{name}@{site}"
-    if name == "TypeError" and ("is not iterable" in str(exc) or "has no len()" in str(exc)):
+    msg = str(exc)
+    if name == "TypeError" and ("is not iterable" in msg or "has no len()" in msg):
         cls = _nonlist_pow_base(trace)
+        m = re.match(r"'(\w+)' object is not iterable", msg) or re.match(r"object of type '(\w+)' has no len\(\)", msg)
+        if cls is None and m:
+            # the Pow node that calls .pow() may be created internally (SProd.pow, Controlled.pow …): verify on an instance of
+            # the named class that occurs in the expression that its .pow() really returns a non-list
+            cls = _nonlist_pow_class(trace, m.group(1))
         if cls is not None:
             mech = f"pow-returns-nonlist:{cls}"
+    if name == "AttributeError":
+        m = re.match(r"'(\w+)' object has no attribute '(\w+)'", msg)
+        if m:
+            mech = f"raise:AttributeError:{m.group(1)}.{m.group(2)}"
     ctx.ev("arith.no_raise")
     ctx.violation("arith.no_raise", f"{where} of {kind} raised {name}: {str(exc)[:300]} on {_summary(tree)[:600]}",
                   case={"tree": tree}, mech=mech)
@@ -552,6 +728,26 @@ def _classify(qp, opzoo, sv, tree, op, W, M, R, tol, children):
     try:
         if _model_fracpow_angle(opzoo, tree, W, M, tol):
             return "simplify:pow-frac:angle-not-principal"
+    except Exception:  # noqa: BLE001
+        pass
+    try:
+        if _model_u2_sign(opzoo, tree, W, M, tol):
+            return "simplify:U2-special-case-sign"
+    except Exception:  # noqa: BLE001
+        pass
+    try:
+        if _model_rot_hadamard(opzoo, tree, W, M, tol):
+            return "simplify:Rot-to-Hadamard-drops-phase"
+    except Exception:  # noqa: BLE001
+        pass
+    try:
+        if "simplify" in _kinds(tree, []) and _counterfactual_hash(qp, opzoo, tree, W, R, tol):
+            return "simplify:groups-terms-by-hash-mod-2pi"
+    except Exception:  # noqa: BLE001
+        pass
+    try:
+        if _model_fracpow_branch(opzoo, tree, W, M, tol):
+            return "simplify:pow-frac:other-branch"
     except Exception:  # noqa: BLE001
         pass
     inner = children[0]
